@@ -31,6 +31,8 @@ ASSUMPTIONS = [
     'a refresh arriving at the very instant of a scheduled query is a tie: either order is accepted',
     'rungs after the first may be up to one delay early as well as late: the statement bounds lateness only, and a kept schedule '
     'entry may sit up to one delay before the 75 % point of the refreshed record',
+    'a second delay of lateness is accepted only for a query sent exactly one delay after the same browser\'s previous query, i.e. held '
+    'back by the rate limit on top of an entry kept by the avoid-churn rule',
 ]
 BUDGET = {'quick': {'examples': 1500}, 'thorough': {'examples': 12000, 'shards': 16}}
 EPS = 0.003
@@ -306,21 +308,29 @@ def check(case: Dict[str, Any]) -> Dict[str, Any]:
                                 dict(det, pair=(rel(x), rel(y))), tag='spacing')
         # ---- (b) liveness ladders -----------------------------------------------------------------------
         vs_all = [v for v in ex.versions if v['type'] in btypes(b)]
+        all_times = [t for t, _ in instants]
         for v in vs_all:
             c, T = v['c'], v['T']
             times = per_type[v['type']]      # the queries that ask for this record's type
             end = min(c + T, v['u'] if v['u'] is not None else c + T, ex.t_end)     # nothing is required past the end of the run
             step = 0.1 * T
 
+            def in_window(x: float, due: float) -> bool:
+                # one delay of slack on both sides: a schedule kept by the avoid-churn rule steps with the previous TTL and may sit
+                # up to one delay after the point that is due; on top of that the rate limit may hold a query back until exactly one
+                # delay after the browser's previous query (and only then is a second delay of lateness accepted)
+                if due - delay - EPS <= x <= due + delay + EPS:
+                    return True
+                return due + delay < x <= due + 2 * delay + EPS and any(abs(x - y - delay) <= EPS for y in all_times)
+
             def ok(s: float) -> bool:
                 if s + step + delay + EPS >= end:
                     return True
-                # one delay of slack on both sides: a schedule kept by the avoid-churn rule steps with the previous TTL
-                return any(ok(s2) for s2 in times if s + step - delay - EPS <= s2 <= s + step + delay + EPS and s2 > s)
+                return any(ok(s2) for s2 in times if s2 > s and in_window(s2, s + step))
 
             first = c + 0.75 * T
             if first + delay + EPS < end:
-                if not any(ok(s1) for s1 in times if first - delay - EPS <= s1 <= first + delay + EPS):
+                if not any(ok(s1) for s1 in times if in_window(s1, first)):
                     raise Violation('record was not queried for at 75 % of its TTL and then every further 10 % until it '
                                     'expired / was refreshed (no valid ladder of refresh queries)',
                                     dict(det, record=v['key'], learned=rel(c), ttl=T, ends=rel(end), first_due=rel(first),
